@@ -144,8 +144,14 @@ def make_pilot(sim, layout, root, sandboxes=None):
                                     'blocked_gpus' : lay['blocked_gpus']}}
     side.reg['cfg']  = cfg
     side.reg['rcfg'] = rcfg
+    sim.data['hostname'] = lay.get('hostname', 'localhost')
     if lay['rm'] == 'SLURM':
-        os.environ['SLURM_NODELIST'] = 'node[%03d-%03d]' % (1, n_total)
+        if lay.get('short_names'):
+            # n1 .. nN: some node names are prefixes of others (n1 / n10)
+            os.environ['SLURM_NODELIST'] = ','.join(
+                'n%d' % i for i in range(1, n_total + 1))
+        else:
+            os.environ['SLURM_NODELIST'] = 'node[%03d-%03d]' % (1, n_total)
         os.environ['SLURM_CPUS_ON_NODE'] = str(lay['cpn'])
 
     sess = C.SimSession(side, SID, rp.Session._AGENT_0, cfg, rcfg=rcfg,
